@@ -1,5 +1,6 @@
 import Driver.Common
 import LinkVerif.Model.Ledger
+import LinkVerif.Model.LedgerR
 
 namespace Driver.C06
 open Go.Proto Model.Ledger Driver
@@ -132,6 +133,43 @@ def step (s : Option St) (toks : List String) : Option St × String :=
       | _ => (some s, "bad-op")
   | [] => (s, "bad-op")
 
-def machine : Machine := { σ := Option St, init := none, step := step }
+/-! Receipt-accurate layer (Model.LedgerR): `forceblock` executes the block the way `Process` does — a value-underfunded
+account transfer whose gas is funded stays in the block with a FAILED receipt (status 0, gas 0, nonce bumped, nothing
+moves) — and the driver remembers the receipt statuses of every committed block for the `receipts` op.  All other ops are
+the ones above (`block` commits what the mempool holds: such a block never contains a failing transaction). -/
+structure DR where
+  s : St
+  sts : List (List Bool) := []     -- receipt statuses (true = 1) of block h at index h - 1
+
+/-- a block committed through the strict path (`block`): every receipt has status 1 -/
+def alignSts (sts : List (List Bool)) (s' : St) : List (List Bool) :=
+  if s'.blocks.length > sts.length then sts ++ [List.replicate ((s'.blocks.getLast?.getD []).length) true] else sts
+
+def stepR (d : Option DR) (toks : List String) : Option DR × String :=
+  match d, toks with
+  | some d, "forceblock" :: _ =>
+    let ids := ((arg? toks "ids").getD "").splitOn "," |>.filterMap String.toNat? |>.filter (· < d.s.txs.length)
+    let (s', r, sts) := forceBlockR d.s ids
+    if r == "ok" then (some { s := s', sts := d.sts ++ [sts] }, s!"h={s'.height} txs={",".intercalate (ids.map toString)}")
+    else (some { d with s := s' }, r)
+  | some d, "receipts" :: _ =>
+    let s := d.s
+    let h := (argI toks "h" 0).toNat
+    let ids := s.blocks.getD (h - 1) []
+    let recs := ids.filterMap (fun i => s.txs[i]?)
+    let sts := d.sts.getD (h - 1) []
+    let pairs := recs.zipIdx.map (fun (t, i) => (t, sts.getD i true))
+    let gas := ",".intercalate (pairs.map (fun (t, ok) => if ok then toString t.gas else "0"))
+    let st := ",".intercalate (pairs.map (fun (t, ok) =>
+      if !ok then "0" else if t.kind == .xfer && t.from_ == t.to && t.amount == 0 then toString t.spends else "1"))
+    if arg? toks "gas" == some gas && arg? toks "st" == some st then (some d, "ok")
+    else (some d, s!"stale got:h={h} gas={arg? toks "gas"} st={arg? toks "st"} model gas={gas} st={st}")
+  | _, _ =>
+    let (s', a) := step (d.map (·.s)) toks
+    match s' with
+    | none => (none, a)
+    | some s' => (some { s := s', sts := alignSts ((d.map (·.sts)).getD []) s' }, a)
+
+def machine : Machine := { σ := Option DR, init := none, step := stepR }
 
 end Driver.C06
